@@ -43,6 +43,9 @@ LU == SetOfSeq(E.s.used)
 LR == SetOfSeq(E.s.res)
 LS == SetOfSeq(E.s.sea)
 SameBook(ref) == ref.u = LU /\ DOMAIN ref.r = LR /\ DOMAIN ref.s = LS
+(* "more": the implementation keeps something the reference has dropped (a leak, C13);
+   "less": it has dropped something the reference still keeps (whether that hurts shows in the invariants) *)
+BookTag(ref) == IF LU \subseteq ref.u /\ LR \subseteq DOMAIN ref.r /\ LS \subseteq DOMAIN ref.s THEN "book:less" ELSE "book:more"
 
 (* ------------------------------ scenario control ------------------------------ *)
 TReset ==
@@ -115,7 +118,7 @@ TDrvScrub ==
   /\ Is("DrvScrub") /\ Adv /\ Keep
   /\ scrubQ # <<>> /\ Head(scrubQ) = E.id
   /\ IF SameBook(ScrubRef) THEN DrvScrubP(ScrubRef.u, ScrubRef.r, ScrubRef.s)
-     ELSE /\ Adoptable(resmap, LR) /\ Adoptable(seamap, LS) /\ Diag("book")
+     ELSE /\ Adoptable(resmap, LR) /\ Adoptable(seamap, LS) /\ Diag(BookTag(ScrubRef))
           /\ DrvScrubP(LU, AdoptMap(resmap, LR), AdoptMap(seamap, LS))
 
 (* a scrub the model did not expect (for instance finish() on a stream the model considers Done): harmless by itself,
@@ -133,14 +136,14 @@ TDrvOp ==
   /\ reqQ # <<>> /\ ReqHead.id = E.id /\ kind[ReqHead.op] = E.k
   /\ IF ~E.ok THEN DrvOpSendFail
      ELSE IF SameBook(OpRef) THEN DrvOpSentP(OpRef.u, OpRef.r, OpRef.s)
-     ELSE /\ Adoptable(resmap, LR) /\ Adoptable(seamap, LS) /\ Diag("book")
+     ELSE /\ Adoptable(resmap, LR) /\ Adoptable(seamap, LS) /\ Diag(BookTag(OpRef))
           /\ DrvOpSentP(LU, AdoptMap(resmap, LR), AdoptMap(seamap, LS))
 
 TDrvRecv ==
   /\ Is("DrvRecv") /\ Adv /\ Keep
   /\ s2c # <<>> /\ Head(s2c).id = E.id
   /\ IF SameBook(RecvRef) THEN DrvRecvP(RecvRef.u, RecvRef.r, RecvRef.s)
-     ELSE /\ Adoptable(resmap, LR) /\ Adoptable(seamap, LS) /\ Diag("book")
+     ELSE /\ Adoptable(resmap, LR) /\ Adoptable(seamap, LS) /\ Diag(BookTag(RecvRef))
           /\ DrvRecvP(LU, AdoptMap(resmap, LR), AdoptMap(seamap, LS))
 
 TDrvExit ==
@@ -158,7 +161,7 @@ TTick == Is("Tick") /\ Adv /\ Keep /\ Chk(~TimerDue, "time") /\ TickCore /\ now'
 
 (* ------------------------------ observations ------------------------------ *)
 TQuiet == /\ Is("Quiet") /\ Adv /\ Keep /\ UNCHANGED vars
-          /\ Chk((SetOfSeq(E.used) = used /\ E.last = last), "book")
+          /\ Chk(SetOfSeq(E.used) \subseteq used, "book:more") /\ Chk(used \subseteq SetOfSeq(E.used) /\ E.last = last, "book:less")
 TClientClosed == /\ Is("ClientClosed") /\ Adv /\ Keep /\ UNCHANGED vars
                  /\ Chk((drv # "run" => (E.shutdown \/ E.dropped)), "close")
 TIgnored == (Is("IdRelease")) /\ Adv /\ Keep /\ UNCHANGED vars
